@@ -250,43 +250,95 @@ MISC = "bigtools/src/utils/misc.rs"
 
 
 def ob_name_table(ctx, res):
-    """C17-T1"""
+    """C17-T1: name_for_bed_item and the --namecol parser are small pure functions over strings: both are evaluated on every mode / column"""
+    from ..rules.interp import Interp, NotPure, _Return
     fn = ctx.ast.fn(MISC, "name_for_bed_item")
-    ms = [n for n in walk_no_nested_fn(fn.body) if n.k == "match" and up(strip(n["scrut"])) == "col"]
-    if len(ms) != 1:
-        res.fail("nameTable/match", fn, "column dispatch not found")
+    holder = [None]
+
+    def method(m, recv, args):
+        if isinstance(recv, (str, int)) and not isinstance(recv, bool) and m in ("to_string", "to_owned", "as_str", "clone", "into", "as_deref", "as_ref", "trim") and not args:
+            return str(recv) if m in ("to_string", "to_owned") else (recv.strip() if m == "trim" else recv)
+        if (recv is None or (isinstance(recv, tuple) and len(recv) == 2 and recv[0] == "some")) and m in ("as_deref", "as_ref", "cloned") and not args:
+            return recv
+        if isinstance(recv, str) and m in ("split", "splitn") and args:
+            return recv.split(args[-1])
+        if isinstance(recv, str) and m == "parse" and not args:
+            return ("some", int(recv)) if recv.isdigit() else ("err", "ParseIntError")
+        if isinstance(recv, list):
+            if m == "nth" and len(args) == 1 and isinstance(args[0], int):
+                return ("some", recv[args[0]]) if 0 <= args[0] < len(recv) else None
+            if m in ("collect", "into_iter", "iter") and not args:
+                return list(recv)
+            if m in ("len", "count") and not args:
+                return len(recv)
+            if m == "get" and len(args) == 1 and isinstance(args[0], int):
+                return ("some", recv[args[0]]) if 0 <= args[0] < len(recv) else None
+        raise NotPure("method %s on %s" % (m, type(recv).__name__))
+
+    def binop(op, a_, b_):
+        if isinstance(a_, int) and isinstance(b_, int) and op in ("+", "-", "*"):
+            if op == "-" and a_ - b_ < 0:
+                raise NotPure("unsigned subtraction below zero")
+            return a_ + b_ if op == "+" else (a_ - b_ if op == "-" else a_ * b_)
+        raise NotPure("arithmetic")
+
+    def macro(n, args):
+        if n["path"] == "format" and args and isinstance(args[0], str):
+            out, rest_ = args[0], list(args[1:])
+            while "{}" in out and rest_:
+                out = out.replace("{}", str(rest_.pop(0)), 1)
+            return out
+        raise NotPure("macro " + n["path"])
+
+    def call(pth, args):
+        if pth.split("::")[-1] in ("InvalidNameColError", "new") and args:
+            return ("ERRVAL",) + tuple(str(a_)[:20] for a_ in args[:1])
+        return NotImplemented
+    ext = {"None": None, "method": method, "binop": binop, "macro": macro, "call": call}
+    entry = {"__ref": True, "start": 7, "end": 9, "rest": "r0\tr1"}
+    cases = [(("variant", "Interval", []), ("some", "chrX:7-9")), (("variant", "None", []), ("some", "chrX\t7\t9\tr0\tr1")),
+             (("variant", "Column", [0]), ("some", "chrX")), (("variant", "Column", [1]), ("some", "7")), (("variant", "Column", [2]), ("some", "9")),
+             (("variant", "Column", [3]), ("some", "r0")), (("variant", "Column", [4]), ("some", "r1")), (("variant", "Column", [5]), "ERR")]
+    for nm_, want in cases:
+        it = Interp(ctx.ast, MISC, extern=ext)
+        holder[0] = it
+        try:
+            got = it.call(fn, [nm_, "chrX", dict(entry)])
+        except NotPure as e:
+            res.undecided("nameTable/not-evaluable", fn, "name_for_bed_item is outside the fragment the rule evaluates (%s)" % e)
+            break
+        okc = (want == "ERR" and isinstance(got, tuple) and got[0] == "err") or got == want
+        if not okc:
+            res.fail("nameTable/fixed", fn, "name mode %s%s must give %s; name_for_bed_item returns %s (columns 0/1/2 are chrom/start/end, column k >= 3 is field k-3 of the tab-separated rest, "
+                                            "a missing column is an error; interval -> chrom:start-end; none -> the input columns)" % (nm_[1], nm_[2] or "", want, got))
+            return
+    else:
+        res.ok(fn, "name column k: 0/1/2 -> chrom/start/end, k>=3 -> field k-3 of the rest (missing -> Err); interval -> chrom:start-end; none -> input line (8 cases evaluated)")
+    # --namecol
+    f2 = ctx.ast.fn(AV, "bigwigaverageoverbed", inline=True, keep=("process_chunk",))
+    lets = [n for n in walk_no_nested_fn(f2.body) if n.k == "let" and n.get("init") is not None and "namecol" in up(n["init"]) and
+            ("Name::" in up(n["init"]) or any(c_.k == "call" and any(g.name == up(c_["func"]).split("::")[-1] and g.body is not None and "Name::" in up(g.body)
+                                                                      for g in ctx.ast.fns_in(AV)) for c_ in walk_no_nested_fn(n["init"])))]
+    if len(lets) != 1:
+        res.undecided("nameTable/parse", f2, "the statement turning --namecol into a Name was not located")
         return
-    tab = {}
-    for a in ms[0]["arms"]:
-        tab[up(a["pat"])] = up(strip(a["body"]))
-    if tab.get("0") != "chrom.to_string()" or tab.get("1") != "start.to_string()" or tab.get("2") != "end.to_string()":
-        res.fail("nameTable/fixed", ms[0], "columns 0/1/2 must be chrom/start/end; got %s" % {k: tab.get(k) for k in "012"})
-        return
-    rest = tab.get("_", "")
-    if "entry.rest.split('\\t')" not in rest or ".nth(col - 3)" not in rest or "return Err(" not in rest:
-        res.fail("nameTable/rest", ms[0], "column k >= 3 must be field k-3 of the tab-separated rest, missing column -> Err")
-        return
-    if origin(fn, _nm(fn, "start", ms[0])) != "p2.start" or origin(fn, _nm(fn, "end", ms[0])) != "p2.end":
-        res.fail("nameTable/start-end", fn, "start/end must be the entry's own")
-        return
-    om = [n for n in walk_no_nested_fn(fn.body) if n.k == "match" and up(strip(n["scrut"])) == "name"]
-    t = {up(a["pat"]).split("(")[0]: up(strip(a["body"])) for a in om[0]["arms"]} if om else {}
-    if 'format!("{}:{}-{}",chrom,start,end)' not in t.get("Name::Interval", "").replace(" ", "") or 'format!("{}\\t{}\\t{}\\t{}",chrom,start,end,entry.rest)' not in t.get("Name::None", "").replace(" ", ""):
-        res.fail("nameTable/modes", fn, "interval -> chrom:start-end; none -> the input columns; got %s" % t)
-        return
-    res.ok(fn, "name column k: 0/1/2 -> chrom/start/end, k>=3 -> rest.split('\\t').nth(k-3) (missing -> Err); interval -> chrom:start-end; none -> input line")
-    f2 = ctx.ast.fn(AV, "bigwigaverageoverbed")
-    nm = [n for n in walk_no_nested_fn(f2.body) if n.k == "match" and "namecol" in up(n["scrut"])]
-    if len(nm) != 1:
-        res.fail("nameTable/parse", f2, "--namecol parsing not found")
-        return
-    t = up(nm[0])
-    need = ['Some("interval") => Name::Interval', 'Some("none") => Name::None', "Ok(col) if col > 0 => Name::Column(col - 1)", "None => Name::Column(3)"]
-    miss = [x for x in need if x not in t]
-    if miss:
-        res.fail("nameTable/parse-table", nm[0], "--namecol table lacks %s" % miss)
-        return
-    res.ok(nm[0], "--namecol: interval | none | 1-based integer (0 and non-numbers -> Err); default column 4")
+    table = [(None, ("variant", "Column", [3])), ("interval", ("variant", "Interval", [])), ("none", ("variant", "None", [])), ("1", ("variant", "Column", [0])),
+             ("4", ("variant", "Column", [3])), ("0", "ERR"), ("abc", "ERR")]
+    for arg, want in table:
+        it = Interp(ctx.ast, AV, extern=ext)
+        try:
+            env = {"args": {"__ref": True, "namecol": None if arg is None else ("some", arg)}}
+            got = it.ev(lets[0]["init"], env, 0)
+        except _Return as r:
+            got = ("ret", r.v)
+        except NotPure as e:
+            res.undecided("nameTable/parse", lets[0], "--namecol parsing is outside the fragment the rule evaluates (%s)" % e)
+            return
+        is_err = isinstance(got, tuple) and got[0] in ("ret", "err") and (got[0] == "err" or (isinstance(got[1], tuple) and got[1][0] == "err"))
+        if (want == "ERR" and not is_err) or (want != "ERR" and got != want):
+            res.fail("nameTable/parse-table", lets[0], "--namecol %s must give %s; got %s (interval | none | 1-based integer, 0 and non-numbers are errors, default column 4)" % (arg, want, got))
+            return
+    res.ok(lets[0], "--namecol: interval | none | 1-based integer (0 and non-numbers -> Err); default column 4 (7 cases evaluated)")
 
 
 def _nm(fn, name, at):
